@@ -13,7 +13,8 @@ from .c03 import read_assignment
 LEVEL = "exploration"
 RULE = (
     "Unmatched instance-map pairs in which references are covered by 2-4 prediction fragments (cuts along random axes, "
-    "then shifts/grow/shrink/spurious/deleted instances; competing references; stray fragments; 1-3-D) x metric in {IoU, "
+    "then shifts/grow/shrink/spurious/deleted instances; competing references; stray fragments; 1-3-D; plus a 1-D "
+    "family of one reference block cut into 3-4 fragments that spill outside by drawn amounts) x metric in {IoU, "
     "Dice, ASSD} x threshold (grid, floats, exact candidate scores). Oracle: validity predicates (each prediction <=1 "
     "reference; seed meets the threshold on its own; every further member strictly improves the cumulative score in the "
     "metric's direction; final score >= seed score and meets the threshold) + membership in the reference model's merge "
@@ -46,8 +47,35 @@ def prepare(tier):
     lib.install_assd_snap()
 
 
+@st.composite
+def tri_case(draw):
+    """1-D family: one reference block and 3-4 fragments that cover parts of it and spill outside by drawn
+    amounts, so that 'accepted, rejected, then accepted-or-rejected' sequences of merge decisions occur."""
+    L = draw(st.integers(4, 12))
+    nf = draw(st.integers(3, 4))
+    left = draw(st.integers(0, 6))
+    right = draw(st.integers(0, 6))
+    n = left + L + right
+    ref = np.zeros(n, dtype=np.int64)
+    ref[left:left + L] = 1
+    pred = np.zeros(n, dtype=np.int64)
+    cuts = sorted(draw(st.lists(st.integers(0, n), min_size=nf - 1, max_size=nf - 1)))
+    bounds = [0] + cuts + [n]
+    for i in range(nf):
+        pred[bounds[i]:bounds[i + 1]] = i + 1
+    holes = draw(st.lists(st.integers(0, n - 1), min_size=0, max_size=4))
+    pred[holes] = 0
+    if draw(st.booleans()):  # a second reference competing for the fragments
+        k = draw(st.integers(0, n - 1))
+        if ref[k] == 0:
+            ref[k] = 2
+    metric = draw(st.sampled_from(["IOU", "IOU", "DSC", "ASSD"]))
+    return {"pred": gen.compact(pred).tolist(), "ref": ref.tolist(), "dtype": "uint8", "metric": metric, "thr": draw(gen.threshold(metric))}
+
+
 def searches(tier):
-    return [("fragments", case_strategy(), BUDGET[tier])]
+    n = BUDGET[tier]
+    return [("fragments", case_strategy(), n), ("three_fragments_1d", tri_case(), n)]
 
 
 def check(case, stats):
